@@ -10,7 +10,7 @@ CONSTANTS
   EQW = 256
   MERW = 64
   LESTRIDE = 1
-  SWEEPLAT = 250
-  SWEEPLON = 400
-  NRAND = 300000
-  NLONS = 8
+  SWEEPLAT = 500
+  SWEEPLON = 800
+  NRAND = 1000000
+  NLONS = 16
